@@ -111,7 +111,16 @@ func GenNested(r *rand.Rand, s StrFn) *Nested {
 // Generate returns a value for marshaler kind 0 (JSON), 1 (ProtoMarshaler), 2 (gogo ProtobufMarshaler).
 func Generate(r *rand.Rand, kind int, s StrFn) (interface{}, string) {
 	if kind == 0 {
-		switch r.Intn(10) {
+		switch r.Intn(14) {
+		case 10:
+			return *GenDynamic(r, s), "dynamic(any fields)"
+		case 11:
+			return GenDynamic(r, s), "*dynamic(any fields)"
+		case 12:
+			m := map[string]any{s(false): GenAny(r, s, 2), "n": GenAny(r, s, 0)}
+			return m, "map[string]any"
+		case 13:
+			return []any{GenAny(r, s, 2), GenAny(r, s, 1), 1.5}, "[]any"
 		case 0:
 			return *GenFlat(r, s), "struct"
 		case 1:
